@@ -247,16 +247,25 @@ class LDMService:
             tuple of ordered tuples of data objects.
         """
 
-        def build_key(item):
-            return tuple(
-                Utils.get_nested(item, Utils.find_attribute(order.attribute, item))
-                for order in orders
-            )
+        def value_of(item, attribute):
+            if "." in attribute:
+                # dotted path, relative to the stored message
+                return Utils.get_nested(item.get("dataObject", item), attribute.split("."))
+            return Utils.get_nested(item, Utils.find_attribute(attribute, item))
 
-        reverse = any(
-            order.ordering_direction == OrderingDirection.DESCENDING for order in orders
-        )
-        return (tuple(sorted(search_results, key=build_key, reverse=reverse)),)
+        ordered = list(search_results)
+        # stable sorts from the least to the most significant key, each in its own direction
+        for order in reversed(orders):
+            def build_key(item, attribute=order.attribute):
+                value = value_of(item, attribute)
+                return (value is None, value)
+
+            ordered = sorted(
+                ordered,
+                key=build_key,
+                reverse=order.ordering_direction == OrderingDirection.DESCENDING,
+            )
+        return (tuple(ordered),)
 
     def add_provider_data(self, data: AddDataProviderReq) -> int | None:
         """
